@@ -46,6 +46,7 @@ import (
 	"time"
 
 	"github.com/hashicorp/raft"
+	"github.com/influxdata/influxdb/models"
 	originql "github.com/influxdata/influxql"
 	metasrv "github.com/openGemini/openGemini/app/ts-meta/meta"
 	"github.com/openGemini/openGemini/lib/config"
@@ -53,7 +54,6 @@ import (
 	"github.com/openGemini/openGemini/lib/logger"
 	meta2 "github.com/openGemini/openGemini/lib/util/lifted/influx/meta"
 	proto2 "github.com/openGemini/openGemini/lib/util/lifted/influx/meta/proto"
-	"github.com/influxdata/influxdb/models"
 	"github.com/openGemini/openGemini/lib/util/lifted/protobuf/proto"
 	"github.com/openGemini/openGemini/lib/util/lifted/vm/protoparser/influx"
 	"go.uber.org/zap"
@@ -168,6 +168,7 @@ func newMcConc(seed int64, id int) *mcConc {
 	for t := int64(-200); t <= 200; t++ {
 		c.rev[mcFmtTime(c.tm(t))] = t
 	}
+	c.rev[mcFmtTime(c.tm(999))] = 999
 	return c
 }
 
@@ -212,6 +213,8 @@ func (c *mcConc) tm(t int64) time.Time {
 		return time.Unix(0, models.MaxNanoTime).UTC().Add(1)
 	case -191:
 		return time.Unix(0, models.MinNanoTime).UTC()
+	case 999: // WrapT: the start of the window holding MinNanoTime, written as int64 nanoseconds (wraps around)
+		return time.Unix(0, c.tm(-192).UnixNano()).UTC()
 	}
 	h := mcFloorDiv(t, 4)
 	k := t - 4*h
@@ -279,6 +282,9 @@ func (c *mcConc) rpInfo(name string, sgd, dur int64, repn int64) *proto2.Retenti
 		ReplicaN:           proto.Uint32(uint32(repn)),
 		Duration:           proto.Int64(int64(time.Duration(dur) * mcTick)),
 		ShardGroupDuration: proto.Int64(int64(time.Duration(sgd) * mcTick)),
+		HotDuration:        proto.Int64(0),
+		WarmDuration:       proto.Int64(0),
+		IndexGroupDuration: proto.Int64(0),
 	}
 }
 
@@ -755,7 +761,7 @@ func (c *mcConc) project(d *meta2.Data, ghost map[uint64]int64, sclean bool) map
 		"nodes": nodes(d.DataNodes), "sql": nodes(d.SqlNodes),
 		"maxNode": d.MaxNodeID, "maxConn": d.MaxConnID, "ptNum": d.ClusterPtNum,
 		"maxSG": d.MaxShardGroupID, "maxSh": d.MaxShardID, "maxMst": d.MaxMstID, "maxIG": d.MaxIndexGroupID, "maxIdx": d.MaxIndexID,
-		"sclean": sclean,
+		"sclean": sclean, "rgmap": d.ReplicaGroups != nil,
 	}
 	ptv, rgs, dbs := map[string]interface{}{}, map[string]interface{}{}, map[string]interface{}{}
 	for _, adb := range c.dbs {
@@ -1095,6 +1101,9 @@ func mcInvariants(d *meta2.Data, hist *mcIdHistory, ghostDur map[uint64]time.Dur
 					ghostDur[g.ID] = rpi.ShardGroupDuration
 				}
 				dur := ghostDur[g.ID]
+				if g.StartTime.Before(time.Unix(0, models.MinNanoTime)) || g.EndTime.After(time.Unix(0, models.MaxNanoTime).Add(1)) {
+					set("GroupsDisjointAlignedSorted", fmt.Sprintf("%s: group %d [%s, %s) reaches outside the legal time range", where, g.ID, mcFmtTime(g.StartTime), mcFmtTime(g.EndTime)))
+				}
 				if !g.StartTime.Before(g.EndTime) {
 					set("GroupsDisjointAlignedSorted", fmt.Sprintf("%s: group %d spans [%s, %s)", where, g.ID, mcFmtTime(g.StartTime), mcFmtTime(g.EndTime)))
 				} else if dur > 0 && !g.StartTime.Truncate(dur).Equal(g.EndTime.Add(-1).Truncate(dur)) {
@@ -1120,9 +1129,9 @@ func mcInvariants(d *meta2.Data, hist *mcIdHistory, ghostDur map[uint64]time.Dur
 }
 
 // which as-implemented deviation explains a violated invariant
-var mcInvDev = map[string]string{
-	"GroupsDisjointAlignedSorted": "groups_not_clipped",
-	"DefaultPolicyExists":         "drop_rp_keeps_default",
+var mcInvDev = map[string][]string{
+	"GroupsDisjointAlignedSorted": {"groups_not_clipped", "far_past_start_wraps"},
+	"DefaultPolicyExists":         {"drop_rp_keeps_default"},
 }
 
 // ---- instance C: maps re-created in shuffled insertion order ---------------------------------------
@@ -1282,17 +1291,19 @@ func mcSharedParts(p interface{}) string {
 
 // mcAttributeReplica explains the differences between the dump of the reference instance (or of the
 // reference at Snapshot time) and a restored instance by the snapshot deviations, exactly:
-//   clone_drops_mst_id           ID of every measurement that was in the snapshot is 0 in the restored
-//                                instance, for all of them (those whose real ID is not 0 differ), nothing else;
-//   clone_shares_replica_groups  differences below ReplicaGroups / PtView.*.RGID, and the restored
-//   clone_shares_sql_nodes       below SqlNodes: replica groups, partition view and sql nodes equal the
-//                                specification's prediction for the as-implemented snapshot.
+//
+//	clone_drops_mst_id           ID of every measurement that was in the snapshot is 0 in the restored
+//	                             instance, for all of them (those whose real ID is not 0 differ), nothing else;
+//	clone_shares_replica_groups  differences below ReplicaGroups / PtView.*.RGID, and the restored
+//	clone_shares_sql_nodes       below SqlNodes: replica groups, partition view and sql nodes equal the
+//	                             specification's prediction for the as-implemented snapshot.
+//
 // Returns the deviations observed, or an error text.
 func (r *mcRun) attributeReplica(diffs []string, ref, got map[string]interface{}, inSnapshot map[string]bool,
 	gotProj interface{}, predicted []interface{}) ([]string, string) {
 	devs := map[string]bool{}
 	mstDiff := map[string]bool{}
-	needShared := false
+	needShared, needFull := false, false
 	for _, df := range diffs {
 		path := df[:strings.Index(df, ": ")]
 		seg := strings.Split(strings.TrimPrefix(path, "/"), "/")
@@ -1310,8 +1321,35 @@ func (r *mcRun) attributeReplica(diffs []string, ref, got map[string]interface{}
 		case seg[0] == "SqlNodes":
 			devs["clone_shares_sql_nodes"] = true
 			needShared = true
+		case len(seg) == 7 && seg[0] == "Databases" && seg[2] == "RetentionPolicies" && (seg[4] == "ShardGroups" || seg[4] == "IndexGroups") && seg[6] == "StartTime":
+			// exact prediction: the reference's start is before MinNanoTime and the restored one is its int64 wrap-around
+			a, _ := mcDig(ref, seg...).(string)
+			g, _ := mcDig2(got, seg...).(string)
+			ta, e1 := time.Parse(time.RFC3339Nano, a)
+			if e1 != nil || !ta.Before(time.Unix(0, models.MinNanoTime)) || g != mcFmtTime(time.Unix(0, ta.UnixNano())) {
+				return nil, "group start differs, not as the int64 wrap-around of a start before MinNanoTime: " + df
+			}
+			devs["snapshot_wraps_far_past_start"] = true
+		case r.fired["snapshot_wraps_far_past_start"] && (seg[0] == "MaxShardGroupID" || seg[0] == "MaxShardID" || seg[0] == "MaxIndexGroupID" || seg[0] == "MaxIndexID" ||
+			(len(seg) >= 5 && seg[0] == "Databases" && seg[2] == "RetentionPolicies" && (seg[4] == "ShardGroups" || seg[4] == "IndexGroups"))):
+			// consequences of a group whose start wrapped around (it no longer contains its timestamps):
+			// accepted only if the whole modelled state is the specification's prediction for the restored node
+			devs["snapshot_wraps_far_past_start"] = true
+			needFull = true
 		default:
 			return nil, "difference outside the deviation models: " + df
+		}
+	}
+	if needFull {
+		ok := false
+		gs := mcJSON(mcNoRgmap(gotProj))
+		for _, p := range predicted {
+			if p != nil && mcJSON(mcNoRgmap(p)) == gs {
+				ok = true
+			}
+		}
+		if !ok {
+			return nil, "state of the restored instance is not the deviation model's prediction: " + strings.Join(diffs, "; ")
 		}
 	}
 	if devs["clone_drops_mst_id"] {
@@ -1353,20 +1391,41 @@ func (r *mcRun) attributeReplica(diffs []string, ref, got map[string]interface{}
 	return out, ""
 }
 
+func mcNoRgmap(p interface{}) interface{} {
+	m := p.(map[string]interface{})
+	out := map[string]interface{}{}
+	for k, v := range m {
+		if k != "rgmap" {
+			out[k] = v
+		}
+	}
+	return out
+}
+
 func mcDig(m map[string]interface{}, path ...string) interface{} {
 	var cur interface{} = m
 	for _, k := range path {
-		mm, ok := cur.(map[string]interface{})
-		if !ok {
-			return nil
-		}
-		cur, ok = mm[k]
-		if !ok {
+		switch t := cur.(type) {
+		case map[string]interface{}:
+			v, ok := t[k]
+			if !ok {
+				return nil
+			}
+			cur = v
+		case []interface{}:
+			var i int
+			if _, err := fmt.Sscanf(k, "%d", &i); err != nil || i < 0 || i >= len(t) {
+				return nil
+			}
+			cur = t[i]
+		default:
 			return nil
 		}
 	}
 	return cur
 }
+
+func mcDig2(m map[string]interface{}, path ...string) interface{} { return mcDig(m, path...) }
 
 func mcMeasurementKeys(dump map[string]interface{}) map[string]bool {
 	out := map[string]bool{}
@@ -1439,6 +1498,7 @@ func mcReplayCase(cs *mcCase) (res mcResult) {
 	phase := "none"
 	restoredKeys := map[string]bool{}
 
+	var prevD interface{}
 	for i := range cs.Hist {
 		st := &cs.Hist[i]
 		res.Steps++
@@ -1447,6 +1507,10 @@ func mcReplayCase(cs *mcCase) (res mcResult) {
 			res.OK, res.Infra = false, "cannot decode the specification's state: "+err.Error()
 			return
 		}
+		if _, unchanged := stD.(int64); unchanged { // 0 = the design's state is the one after the previous step
+			stD = prevD
+		}
+		prevD = stD
 		var alt *mcAlt
 		var stI interface{}
 		if len(st.Alt) > 0 {
@@ -1618,8 +1682,14 @@ func mcReplayCase(cs *mcCase) (res mcResult) {
 			// ---- C16 on the real structure
 			res.InvEvals++
 			for inv, detail := range mcInvariants(A, ids, ghostDur) {
-				if dv, ok := mcInvDev[inv]; ok && run.lineage == "impl" && run.fired[dv] {
-					run.known(dv, fmt.Sprintf("step %d %s: %s violated on the real catalogue: %s", i, st.A, inv, detail))
+				attributed := false
+				for _, dv := range mcInvDev[inv] {
+					if run.lineage == "impl" && run.fired[dv] {
+						run.known(dv, fmt.Sprintf("step %d %s: %s violated on the real catalogue: %s", i, st.A, inv, detail))
+						attributed = true
+					}
+				}
+				if attributed {
 					continue
 				}
 				run.fail(i, st.A, "C16", fmt.Sprintf("%s violated after %+v: %s", inv, st.Args, detail))
